@@ -500,3 +500,78 @@ Theorem c17_run_complete_partial_applies :
     [(C17WakeExample.key, [97], 0); (C17WakeExample.key, [98], 1); (C17WakeExample.key, [97], 2)] /\
   forall off, 0 <= off < 3 -> In off (offs_of C17WakeExample.key (gfwd st1 C17CovExample.ops2)).
 Proof. exact C17CovExample.steady_example. Qed.
+
+(** ... at run level, in general: per-incarnation creation positions [starts] (ghost computed with
+    the model's own functions, Router/GroupWakeRun.v), coverage invariant [CovM]. *)
+From Rumqtt Require Import Router.GroupWakeRun Router.GroupWakeRunThm.
+From Rumqtt Require Import Router.Model Router.RunDefs.
+
+Theorem c17_starts_upd : forall st st' m name,
+  al_get str_eqb name (upd_starts st st' m) =
+  match al_get str_eqb name (r_groups st') with
+  | None => None
+  | Some g' => Some (match al_get str_eqb name (r_groups st), al_get str_eqb name m with
+                     | Some _, Some s => s
+                     | _, _ => read_pos (r_datalog st') name (g_cursor g')
+                     end)
+  end.
+Proof. exact al_get_upd. Qed.
+
+Theorem c17_coverage_step : forall st o st' out gh m gf,
+  CInv st -> Bounded st -> GK st -> CovM st m gf ->
+  step_g st o = Ok (st', out, gh) -> gh_rewind gh = false ->
+  CovM st' (starts_step st o st' m) (gf ++ map forget (gh_fwd gh)).
+Proof. exact step_covm. Qed.
+
+Theorem c17_starts_total : forall cfg st0 ops st,
+  cf_max_outgoing cfg < B62 -> init cfg = Ok st0 -> run st0 ops = Ok st -> Bounded st -> no_rewind_b st0 ops = true ->
+  forall name g, al_get str_eqb name (r_groups st) = Some g -> exists s, al_get str_eqb name (starts st0 ops) = Some s.
+Proof. exact starts_total. Qed.
+
+Theorem c17_run_complete : forall cfg st0 ops st,
+  cfg_ok cfg -> 1 <= cf_max_outgoing cfg < B62 -> init cfg = Ok st0 -> ops_wf ops ->
+  run st0 ops = Ok st -> Bounded st -> no_rewind_b st0 ops = true ->
+  quiescent st (owed_run st0 [] ops) ->
+  forall name g d s,
+    al_get str_eqb name (r_groups st) = Some g -> glog (r_datalog st) name = Some d ->
+    (forall c, stale (d_log d) c = false) ->
+    al_get str_eqb name (starts st0 ops) = Some s ->
+    forall off, s <= off < end_of (d_log d) -> In off (offs_of name (gfwd st0 ops)).
+Proof. exact run_complete. Qed.
+
+Theorem c17_run_exactly_once : forall cfg st0 ops st,
+  cfg_ok cfg -> 1 <= cf_max_outgoing cfg < B62 -> init cfg = Ok st0 -> ops_wf ops ->
+  run st0 ops = Ok st -> Bounded st -> no_rewind_b st0 ops = true -> rejoin_fresh_b st0 ops = true ->
+  quiescent st (owed_run st0 [] ops) ->
+  forall name g d s,
+    al_get str_eqb name (r_groups st) = Some g -> glog (r_datalog st) name = Some d ->
+    (forall c, stale (d_log d) c = false) ->
+    al_get str_eqb name (starts st0 ops) = Some s ->
+    forall off, s <= off < end_of (d_log d) -> count_occ N.eq_dec (offs_of name (gfwd st0 ops)) off = 1%nat.
+Proof. exact run_exactly_once. Qed.
+
+Theorem c17_run_member_share_order : forall cfg st0 ops st',
+  cf_max_outgoing cfg < B62 -> init cfg = Ok st0 -> run st0 ops = Ok st' -> Bounded st' ->
+  no_rewind_b st0 ops = true -> rejoin_fresh_b st0 ops = true ->
+  forall name client, StronglySorted N.lt (offs_of_member name client (gfwd st0 ops)).
+Proof. exact run_member_order. Qed.
+
+Theorem c17_reincarnation_state :
+  let st := C17WakeExample.gw_st C17RunCompleteExample.reinc_ops in
+  run C17WakeExample.gw_st0 C17RunCompleteExample.reinc_ops = Ok st /\
+  C17WakeExample.gview st =
+    [(C17WakeExample.key, [[97]], 0, (0, 3), Some [97], Some (3, 3, [(0, (0, 3), Some C17WakeExample.key)]))] /\
+  starts C17WakeExample.gw_st0 C17RunCompleteExample.reinc_ops = [(C17WakeExample.key, 2)] /\
+  gfwd C17WakeExample.gw_st0 C17RunCompleteExample.reinc_ops =
+    [(C17WakeExample.key, [97], 0); (C17WakeExample.key, [97], 2)] /\
+  forallb (fun x : list oracle * rop => op_wf_b (snd x)) C17RunCompleteExample.reinc_ops = true /\
+  bounded_b st = true /\
+  quiescent_b st (owed_run C17WakeExample.gw_st0 [] C17RunCompleteExample.reinc_ops) = true /\
+  no_rewind_b C17WakeExample.gw_st0 C17RunCompleteExample.reinc_ops = true /\
+  rejoin_fresh_b C17WakeExample.gw_st0 C17RunCompleteExample.reinc_ops = true.
+Proof. exact C17RunCompleteExample.reinc_state. Qed.
+
+Theorem c17_run_exactly_once_applies :
+  forall off, 2 <= off < 3 ->
+  count_occ N.eq_dec (offs_of C17WakeExample.key (gfwd C17WakeExample.gw_st0 C17RunCompleteExample.reinc_ops)) off = 1%nat.
+Proof. exact C17RunCompleteExample.run_exactly_once_applies. Qed.
